@@ -39,7 +39,7 @@ def worker(inner_defs, groups, extra):
             # isolate: one file per group
             good = []
             for g in groups:
-                sub = os.path.join(work, "g%d" % g["gid"])
+                sub = os.path.join(work, "g%s" % g["gid"])
                 os.mkdir(sub)
                 try:
                     m, n, es, text = compile_batch(inner_defs, [g], sub, "b")
@@ -64,6 +64,10 @@ def worker(inner_defs, groups, extra):
 
 
 def _fail(res, check, env, g, vec, what, **kw):
+    res["fails"].append(_mk_fail(check, env, g, vec, what, **kw))
+
+
+def _mk_fail(check, env, g, vec, what, **kw):
     ninner = len(env.defs) - len(g["cons"])
     d = {"check": check, "gid": g["gid"], "what": what, "inner": g["inner"], "cons": g["cons"],
          "schema": env.render(range(ninner + 1, len(env.defs) + 1))}
@@ -73,7 +77,7 @@ def _fail(res, check, env, g, vec, what, **kw):
             d["outL"] = _hex(vec["outL"])
     d["features"] = shadows.features(env, len(env.defs), g.get("lay"))
     d.update(kw)
-    res["fails"].append(d)
+    return d
 
 
 def check_vector(env, mod, root, vec, g, checks, res):
@@ -313,7 +317,7 @@ def fault_worker(inner_defs, groups, extra):
                 key = "%s/%s/spec-%s" % (vec["fault"][0], outcome, vec["verdict"])
                 res["outcomes"][key] = res["outcomes"].get(key, 0) + 1
                 if vec["fault"][0] != "none":
-                    res["nontrivial"].append("%d:%s" % (g["gid"], data.hex()))
+                    res["nontrivial"].append("%s:%s" % (g["gid"], data.hex()))
                 if outcome == "return":
                     _check_fixpoint(env, mod, root, t, fresh, g, vec, order, data, res)
                 if len(res["samples"]) < 2 and vec["fault"][0] == "ctl":
@@ -342,20 +346,28 @@ def _check_fixpoint(env, mod, root, t, fresh, g, vec, order, data, res):
               % (data.hex(), order, P.exc_text(e)), **kw)
         return
     again = P.new_message(env, mod, root)
+    problem = None
     try:
         again.decode(enc, order)
         v2 = P.extract(env, again, t)
         enc2 = again.encode(order)
+        if v1 != v2 or enc != enc2:
+            problem = "decode(%s, %r) returned; not a fixpoint: %s -> %s, %r -> %r" % (
+                data.hex(), order, enc.hex(), enc2.hex(), v1, v2)
     except Exception as e:
-        _fail(res, "total", env, g, vec, "decode(%s, %r) returned; decoding its re-encoding %s failed: %s"
-              % (data.hex(), order, enc.hex(), P.exc_text(e)), **kw)
+        problem = "decode(%s, %r) returned; decoding its re-encoding %s failed: %s" % (
+            data.hex(), order, enc.hex(), P.exc_text(e))
+    if problem is None:
         return
-    if enc == enc2 and v1 != v2 and vec["rkind"] == 2:
-        # the documented greedy-tail ambiguity (C02): the re-encoding ends in
-        # padding that the second decode reads as further greedy elements; the
-        # bytes are a fixpoint, the value cannot be.  Unlimited roots only.
-        res["outcomes"]["greedy-tail-ambiguity"] = res["outcomes"].get("greedy-tail-ambiguity", 0) + 1
+    if vec["rkind"] == 2:
+        # Unlimited root: whether the fixpoint is owed depends on the decoded
+        # message's greedy tail ending aligned (C02's documented exception).
+        # That is the specification's call: the orchestrator lets TLC encode
+        # the decoded walk (trace validation) and reads GreedyTailAligned.
+        res.setdefault("pending", []).append({
+            "item": {"env": env.defs, "walk": S.value_to_walk(env, t, v1),
+                     "obsL": list(enc) if order == "<" else [], "obsB": list(enc) if order == ">" else []},
+            "order": order,
+            "fail": _mk_fail("total", env, g, vec, problem, **kw)})
         return
-    if v1 != v2 or enc != enc2:
-        _fail(res, "total", env, g, vec, "decode(%s, %r) returned; not a fixpoint: %s -> %s, %r -> %r"
-              % (data.hex(), order, enc.hex(), enc2.hex(), v1, v2), **kw)
+    _fail(res, "total", env, g, vec, problem, **kw)
